@@ -213,6 +213,25 @@ theorem C01_mirror_fs_own_listing (fs0 : FS) (hwf : fs0.Wf) (r : FPath)
       ∀ p, p ≠ [] → MirrorAt fs0 fs' r p (src p) :=
   sync_mirror (destWF_of_listNodes fs0 hwf r hroot hanc hclosed f hfuel) hs
 
+/-- **Mirror, for every source tree and every destination tree** (both as file-system values): a
+source tree below `rs` holding files, folders and links (tree-closed), a destination below `rd` (any
+tree-closed content: files, folders, links, special files) — the listings are the model's own
+(`listNodes`), the plan is the closed form, the execution is the doer's calls: the run ends `ok`,
+follows no link, touches nothing outside `rd`, and at every relative path the destination ends up with
+what the source holds there (`MirrorAt`).  No assumption about listings or orders is left: they are
+consequences (`C17_listing_exact_fs`). -/
+theorem C01_mirror_two_trees (S D : FS) (rs rd : FPath) (fS fD : Nat)
+    (hS : SrcTreeOk S rs fS) (hD : D.Wf)
+    (hroot : D.get rd = some .folder) (hanc : ∀ k, k < rd.length → D.get (rd.take k) = some .folder)
+    (hclosed : ∀ p, p ≠ [] → D.get (rd ++ p) ≠ none → D.get (rd ++ p.dropLast) = some .folder)
+    (hfuel : ∀ p, D.get (rd ++ p) ≠ none → p.length ≤ fD) :
+    ∃ D', syncDest D rd (srcOfFS S rs) (lsOfFS S rs fS)
+        ((listNodes D fD rd).map fun e => (e.1.drop rd.length, e.2)) = .ok D' ∧
+      (∀ q, ¬ rd <+: q → D'.get q = D.get q) ∧
+      D'.get rd = some .folder ∧
+      ∀ p, p ≠ [] → MirrorAt D D' rd p (srcOfFS S rs p) :=
+  sync_mirror (destWF_of_listNodes D hD rd hroot hanc hclosed fD hfuel) (srcWF_of_tree S rs fS hS)
+
 /-- how an entry of the file-system model appears in a listing (`entry_details_from_metadata`; the
 link kind `k` is whatever the probe gives: a unix destination does not compare it) -/
 def dOfNode (k : SymKind) : Node → Details
